@@ -246,3 +246,42 @@ Proof.
   { unfold conv_num. rewrite has_point_point, (parse_f64_point ip fp Hne Hi Hf). reflexivity. }
   rewrite (tokens_minus_point_literal lt_number conv_num mode_number minus_number ip fp _ Hne Hi Hf Hv). reflexivity.
 Qed.
+
+(** ** eval_complex: a literal directly followed by [i] is the imaginary number with that coefficient *)
+Lemma span_stop {f : N -> bool} cs x rest : forallb f cs = true -> f x = false -> span f (cs ++ x :: rest) = (cs, x :: rest).
+Proof.
+  induction cs as [|c cs IH]; intros H Hx.
+  - cbn [app span]. rewrite Hx. reflexivity.
+  - cbn [forallb] in H. apply andb_true_iff in H. destruct H as [Hc Hcs].
+    cbn [app span]. rewrite Hc, (IH Hcs Hx). reflexivity.
+Qed.
+
+Lemma strip_app_i cs : forallb is_numch cs = true -> strip (cs ++ [ch_i]) = cs ++ [ch_i].
+Proof.
+  intros H. unfold strip. rewrite filter_app. fold (strip cs). rewrite (strip_numch cs H). reflexivity.
+Qed.
+
+Theorem complex_imaginary_literal_run (C : cpxlib) (p : cpx) ip fp :
+  ip <> [] -> forallb is_digit ip = true -> forallb is_digit fp = true ->
+  run_cpx C ((ip ++ ch_dot :: fp) ++ [ch_i]) p = Ok (fzero, f64_of_decimal (digits_val 0 (ip ++ fp)) (N.of_nat (length fp))).
+Proof.
+  intros Hne Hi Hf. unfold run_cpx, run, ast_of, tokens_of, tokenize_all.
+  rewrite (strip_app_i _ (numch_point ip fp Hi Hf)).
+  destruct ip as [|c ip]; [congruence|].
+  cbn [forallb] in Hi. apply andb_true_iff in Hi. destruct Hi as [Hc Hi].
+  change (((c :: ip) ++ ch_dot :: fp) ++ [ch_i]) with (c :: ((ip ++ ch_dot :: fp) ++ [ch_i])).
+  change (length (c :: ((ip ++ ch_dot :: fp) ++ [ch_i]))) with (S (length ((ip ++ ch_dot :: fp) ++ [ch_i]))).
+  remember (length ((ip ++ ch_dot :: fp) ++ [ch_i])) as f eqn:Ef.
+  assert (Hl : lex_step lt_complex conv_cpx (c :: ((ip ++ ch_dot :: fp) ++ [ch_i]))
+               = Some (TNum (fzero, f64_of_decimal (digits_val 0 ((c :: ip) ++ fp)) (N.of_nat (length fp))), [])).
+  { unfold lex_step. rewrite Hc.
+    change (lt_mode lt_complex) with FloatGreedy. cbv iota.
+    change (fun x : N => is_digit x || (x =? ch_dot)) with is_numch.
+    rewrite (span_stop (f := is_numch) (ip ++ ch_dot :: fp) ch_i [] (numch_point ip fp Hi Hf) eq_refl).
+    unfold imag_tail. change (lt_imag_suffix lt_complex) with true. cbv iota. rewrite N.eqb_refl.
+    assert (Hi' : forallb is_digit (c :: ip) = true) by (cbn [forallb]; rewrite Hc, Hi; reflexivity).
+    assert (Hne' : c :: ip <> []) by discriminate.
+    unfold conv_cpx. change (c :: ip ++ ch_dot :: fp) with ((c :: ip) ++ ch_dot :: fp).
+    rewrite (parse_f64_point (c :: ip) fp Hne' Hi' Hf). reflexivity. }
+  cbn [tokenize]. rewrite Hl. destruct f; reflexivity.
+Qed.
